@@ -5,5 +5,6 @@ CONSTANTS
   MaxDepth = 2
   Ordered = FALSE
   Exits = TRUE
+  Hard = FALSE
 INVARIANTS OneTidPerThread
 CHECK_DEADLOCK FALSE
